@@ -78,12 +78,19 @@ func VerifC18_Histories() {
 func VerifC18_InductiveStep() {
 	verifOwnPanics()
 	verifMapOrder()
-	maxN := 4
+	// capacities: small ones, and larger ones around powers of two
+	caps := []int{1, 2, 3, 4, 7, 8, 9, 16}
 	if verifTier() > 0 {
-		maxN = 8
+		caps = []int{1, 2, 3, 4, 5, 6, 7, 8, 9, 15, 16, 17, 24, 32}
 	}
-	n := verifParam("capacity", 1, maxN)
-	cnt := verifParam("held", 0, n)
+	n := caps[verifParam("capacity", 0, len(caps)-1)]
+	// held: empty, one, nearly full, full (every fill level for small queues)
+	var cnt int
+	if n <= 4 {
+		cnt = verifParam("held", 0, n)
+	} else {
+		cnt = []int{0, 1, n - 1, n}[verifParam("held", 0, 3)]
+	}
 	base := verifInt("base")
 	verifAssume(base >= 0)
 	verifAssume(base < 1<<62)
